@@ -32,6 +32,7 @@ struct ApiOpts {
 	bool everyVertexUsed = true;
 	bool segments = false;           // FO4/FO76: random segmentation
 	bool partitions = false;         // LE/SSE/FO3: random partition assignment
+	bool modelSpace = false;         // SK/SSE: shaders use model-space normals (cloning / conversion drop normals and tangents then)
 };
 
 struct ApiModel {
